@@ -12,6 +12,8 @@ pub struct HistoryCfg {
     pub restarts: bool,
     pub jumps: bool,
     pub sparse_regs: bool,
+    /// protocol parameters changed by the operator (stop, epoch change, start with another configuration)
+    pub param_changes: bool,
 }
 
 impl HistoryCfg {
@@ -28,11 +30,13 @@ impl HistoryCfg {
             restarts: h % 3 != 0,
             jumps: h % 4 == 3,
             sparse_regs: h % 3 == 1,
+            param_changes: h % 5 == 1 || h % 5 == 3,
         }
     }
     pub fn tag(&self) -> String {
         format!(
-            "hist{}{}{}",
+            "hist{}{}{}{}",
+            if self.param_changes { "-params" } else { "" },
             if self.restarts { "-restart" } else { "" },
             if self.jumps { "-jump" } else { "" },
             if self.sparse_regs { "-sparse" } else { "" }
@@ -123,6 +127,19 @@ impl Gen {
         n
     }
 
+    /// everybody registers for the next key and the rounds of this epoch are driven until it has a certificate
+    pub async fn productive_epoch(&mut self, rng: &mut Rng) {
+        self.w.tick().await;
+        self.register_some(rng, true).await;
+        let epoch = self.w.time_point().await.epoch.0;
+        for _ in 0..8 {
+            self.drive().await;
+            if self.w.last_dump.certs.iter().any(|c| c.epoch == epoch) && self.w.tester.runtime.state_label() != "signing" {
+                break;
+            }
+        }
+    }
+
     /// a productive step: sign the current message (if any) and tick
     pub async fn drive(&mut self) {
         if self.w.tester.runtime.state_label() == "signing" {
@@ -209,6 +226,22 @@ impl Gen {
                         self.w.tick().await;
                     }
                     self.w.tags.insert("epoch-without-certificate".into());
+                    return;
+                }
+                if !unhealthy && self.cfg.param_changes && rng.chance(1, 2) {
+                    // the operator changes the protocol parameters: the aggregator is down over the epoch change
+                    let cur = self.w.cfg.protocol_parameters.clone().unwrap();
+                    let ks = [5u64, 40, 70];
+                    let p = match rng.below(4) {
+                        0 => ProtocolParameters { k: *rng.pick(&ks), ..cur },
+                        1 => ProtocolParameters { m: if cur.m == 100 { 120 } else { 100 }, ..cur },
+                        2 => ProtocolParameters { phi_f: if cur.phi_f == 0.95 { 0.9 } else { 0.95 }, ..cur },
+                        _ => ProtocolParameters { k: *rng.pick(&ks), m: 100 + 10 * rng.below(4), phi_f: *rng.pick(&[0.85, 0.9, 0.95]) },
+                    };
+                    self.w.restart_across_epoch_with_params(p).await;
+                    for _ in 0..3 {
+                        self.w.tick().await;
+                    }
                     return;
                 }
                 let jump = if unhealthy && rng.chance(1, 2) { 2 } else { 1 };
@@ -365,6 +398,29 @@ pub async fn run_history(name: &str, cfg: &HistoryCfg, rng: &mut Rng, _reserved:
             let at = format!("after event {}", g.w.events.len());
             g.w.check_store(&at).await;
             next_check += 40;
+        }
+    }
+    if cfg.param_changes {
+        // epilogue of the parameter-change histories: one more change, then enough productive epochs for messages to
+        // be certified UNDER the new parameters (registered at E, signing at E + 2) and for the next epoch to link to them
+        g.productive_epoch(rng).await;
+        let cur = g.w.cfg.protocol_parameters.clone().unwrap();
+        let p = ProtocolParameters { k: if cur.k == 5 { 40 } else { 5 }, m: if cur.m == 100 { 110 } else { 100 }, phi_f: if cur.phi_f == 0.95 { 0.9 } else { 0.95 } };
+        g.w.restart_across_epoch_with_params(p).await;
+        for _ in 0..3 {
+            g.w.tick().await;
+        }
+        for _ in 0..3 {
+            g.productive_epoch(rng).await;
+            g.w.epoch_up(1).await;
+            for _ in 0..3 {
+                g.w.tick().await;
+            }
+        }
+        g.productive_epoch(rng).await;
+        let last = g.w.time_point().await.epoch.0;
+        if g.w.last_dump.certs.iter().any(|c| c.epoch == last && g.w.params_of_key.contains_key(&(c.epoch - 1))) {
+            g.w.tags.insert("certificate-under-new-parameters".into());
         }
     }
     // drain: give pending rounds a chance, then the final check on the store
